@@ -128,4 +128,17 @@ TEXT = {
                 "in other shapes are unambiguous but outside the proved domain. Three genuine defects found by these contracts were repaired in /repo (see known_findings.json).",
         "technique": "contract-based deductive verification: own VC generator over the real source (incl. mechanical regex->SMT translation) + z3/cvc5",
     },
+    "C11": {
+        "level": "All twenty encode_* / decode_* functions of the real MementoCodec are proved against one wire predicate per document kind (memento, invocation metadata, function reference with arguments / "
+                 "with argument hash, function reference, resource handle, recursive context, versioned key, datetime, argument): every encoder emits a dictionary with exactly the pinned field names whose "
+                 "fields carry the object's fields (lists element-wise and in order, mappings key-wise, nested documents through the nested predicate), every decoder returns an object whose fields are what the "
+                 "document's fields carry -- both directions against the SAME predicate text, for documents and values of any size. encode_arg / decode_arg are proved against the typed {type, value} "
+                 "specification with the documented tag priority over the real subclass facts (bool before number, datetime before date, memento function references, 1-d arrays by dtype), recursive "
+                 "calls through their own contract. decode_versioned_data_source_key is proved to split 'key#version' at the LAST '#' (any key, version without '#'); decode_datetime is proved to take the "
+                 "date branch exactly on strings of the shape dddd-dd-dd (regex read from the source).",
+        "note": "Partial: the round trip decode(encode(x)) ~ x is the stated structural-induction lemma over the two proved directions; equality of the recomputed argument hash follows from C04 and is not "
+                "re-proved; dateutil / isoformat / base64 / numpy construction / from_qualified_name are assumed relations (their round trips are not proved); termination of the recursive codecs is not "
+                "proved; field names are pinned from the current code. Malformed documents make decoders raise (KeyError, TypeError, ...): nothing is claimed about which.",
+        "technique": "contract-based deductive verification: own VC generator over the real source + z3/cvc5",
+    },
 }
